@@ -8,6 +8,7 @@ Definition gen_store_create_next_then_locked_insert : bool := true.
 Definition gen_store_load_locked_get_cloned : bool := true.
 Definition gen_store_remove_locked_remove : bool := true.
 Definition gen_store_single_lock : bool := true.
+Definition gen_store_list_load_entrywise : bool := true.
 Definition gen_tails_blob_tag_sz : Z := 2%Z.
 Definition gen_tails_version : list Z := [0%Z; 2%Z].
 Definition gen_tails_disarm_before_rename : bool := false.
